@@ -301,4 +301,19 @@ theorem routerReads_all_caught (handlers : List String) (hall : handlers.contain
 theorem crtp_fields : ∀ h : Fin 256, Gen.C18.crtpHeaderExpr h.val = (h.val ||| 0x0C) ∧
     Gen.C18.crtpPortExpr h.val = h.val / 16 ∧ Gen.C18.crtpChanExpr h.val = h.val % 4 := by decide +kernel
 
+/-! ### several links in one process -/
+
+theorem worldFold_link (ops : List (Nat × ROp)) (i : Nat) : ∀ w : World,
+    (ops.foldl worldStep w) i = (opsOf i ops).foldl routerStep (w i) := by
+  induction ops with
+  | nil => intro w; rfl
+  | cons op ops ih =>
+    intro w
+    rw [List.foldl_cons, ih]
+    by_cases h : op.1 = i
+    · simp [opsOf, worldStep, h]
+    · have hb : (op.1 == i) = false := by simpa using h
+      have h' : ¬ i = op.1 := fun e => h e.symm
+      simp [opsOf, hb, worldStep, h']
+
 end CfVerif.C18
